@@ -21,15 +21,16 @@
 (* base   the read projection at the last moment the stack was empty and the *)
 (*        user changed something on purpose                                  *)
 (* seen / graph   AbsPDF.f_data (is the probe data set registered) and the   *)
-(*        Python-level state frozen into the compiled graph (None = not      *)
-(*        traced yet)                                                        *)
+(*        set of Python-level states for which a compiled graph was traced   *)
 (*                                                                           *)
 (* The constants Finally / ExactRestore / RawSave mirror the code: TRUE      *)
 (* where the block restores in a finally clause / restores the saved         *)
 (* selection including not_full / saves unmasked physical values.            *)
 EXTENDS Integers, Sequences, FiniteSets, TLC, SequencesExt, FiniteSetsExt
 
-CONSTANTS K,            \* number of decay chains; chain i contains resonance i only
+CONSTANTS KeyedGraph,   \* TRUE: the compiled function is keyed by the Python-level state it froze
+                        \* (retraced when that changes); FALSE: traced once and reused
+          K,            \* number of decay chains; chain i contains resonance i only
           PV,           \* values of the probe parameter
           MaxDepth, MaxStack,
           Finally, ExactRestore, RawSave,
@@ -73,7 +74,7 @@ Init ==
     /\ stack = <<>>
     /\ base = Proj(m)
     /\ seen = FALSE
-    /\ graph = None
+    /\ graph = {}
     /\ depth = 0
 
 Top == stack = <<>>
@@ -242,12 +243,16 @@ Abandon ==
 
 --------------------------------------------------------------------------
 (* evaluating the density of the probe data set: amp(data)                  *)
+\* the traced graph a compiled call would use now (a set with at most one element)
+UsedGraph == IF KeyedGraph THEN {Snap(m)}                    \* traced for this state (now, if not yet)
+             ELSE graph                                       \* whatever was traced first
 Call ==
     /\ Tick /\ Interleavable
     /\ IF ~seen THEN seen' = TRUE /\ UNCHANGED graph                      \* first call registers, eager
        ELSE /\ UNCHANGED seen
             /\ IF m.notFull THEN UNCHANGED graph                           \* eager
-               ELSE graph' = IF graph = None THEN Snap(m) ELSE graph      \* compiled (traced on first use)
+               ELSE graph' = IF KeyedGraph THEN graph \cup {Snap(m)}
+                             ELSE (IF graph = {} THEN {Snap(m)} ELSE graph)
     /\ UNCHANGED <<m, stack, base>>
 
 --------------------------------------------------------------------------
@@ -277,12 +282,12 @@ Transparent == Top => Proj(m) = base
 
 (* C05 (a): whenever the compiled path would be taken it was traced in the   *)
 (* Python-level state that is current now, so it returns the eager density   *)
-CompiledEqualsEager == (seen /\ ~m.notFull /\ graph # None) => graph = Snap(m)
+CompiledEqualsEager == (seen /\ ~m.notFull) => \A g \in UsedGraph : g = Snap(m)
 
-CompiledActive == (seen /\ ~m.notFull /\ graph # None) => graph.active = Active(m.sel)
-CompiledPolar == (seen /\ ~m.notFull /\ graph # None) => graph.polar = m.polar
-CompiledMask == (seen /\ ~m.notFull /\ graph # None) => graph.maskv = m.maskv
-CompiledMaskFactor == (seen /\ ~m.notFull /\ graph # None) => graph.maskFactor = m.maskFactor
+CompiledActive == (seen /\ ~m.notFull) => \A g \in UsedGraph : g.active = Active(m.sel)
+CompiledPolar == (seen /\ ~m.notFull) => \A g \in UsedGraph : g.polar = m.polar
+CompiledMask == (seen /\ ~m.notFull) => \A g \in UsedGraph : g.maskv = m.maskv
+CompiledMaskFactor == (seen /\ ~m.notFull) => \A g \in UsedGraph : g.maskFactor = m.maskFactor
 
 (* C03 (selection part): set_used_res / set_used_chains select exactly the   *)
 (* chains that contain the requested resonances; not_full tells the truth    *)
